@@ -228,6 +228,7 @@ fn main() {
         "sched" => schedrun::run(&args),
         "free" => mem::run_free(&args),
         "mem" => mem::run_mem(&args),
+        "sizes" => mem::run_sizes(&args),
         "init" => special::run_init(&args),
         "single" => special::run_single(&args),
         "handoff" => special::run_handoff(&args),
